@@ -9,5 +9,5 @@ RULE = ("cases = (env, entry covering fov/sensor ranges, obs_num_ems, normalisat
         "depth >= 1, distinct by state digest")
 ASSUMPTIONS = ["ties and cases the documentation leaves undefined are excluded inside the per-env observers (see DESIGN C12 guards)"]
 _P = mp.HistoryProp(PROPERTY, "observe_check", mp.C12Mon, n_quick=24, n_thorough=250, max_len=50,
-                    styles=("legalish", "survive", "legal", "chaos", "solveish", "crowded"))
+                    styles=("legalish", "survive", "legal", "chaos", "solveish", "crowded", "solve"))
 _P.export(globals())
